@@ -162,7 +162,7 @@ func streamPrinterWF(rep *Report, tier string, seed uint64) {
 					}
 				} else {
 					if e := wflErr(out); e != "" {
-						orc = append(orc, "C01:printer output not well-formed/line-safe: "+e)
+						orc = append(orc, wfTag(e)+"printer output not well-formed/line-safe: "+e)
 					} else if e := perLineErr(out, realRedact, realStrip); e != "" {
 						orc = append(orc, "C03:"+e)
 					}
@@ -343,6 +343,71 @@ func streamFidelity(rep *Report, tier string, seed uint64) {
 		})
 }
 
+// streamStars: `*` widths and precisions (also negative and large ones) with every numeric
+// and string verb, compared with fmt: the directive parser's handling of star operands and
+// what the leaf formatters do with the resulting width/precision.
+func streamStars(rep *Report, tier string, seed uint64) {
+	RunStream(rep, "P-stars", true, "flag subsets x {literal width, *} x {none, literal precision, .*} with star operands in {-100,-40,-5,-1,0,1,7,70,100} x 12 verbs x 6 operands, compared with fmt", false, 1,
+		func(sh, ns int, emit func(Case)) {
+			resetRegistry()
+			stars := []int{-100, -40, -5, -1, 0, 1, 7, 70, 100}
+			flagSets := []string{"", "0", "+", "+0", "#0", " 0", "#", "-", "+#0"}
+			verbs := []string{"d", "x", "o", "b", "v", "s", "q", "e", "f", "g", "c", "U"}
+			operands := []interface{}{-5, 255, uint8(7), "ab", 3.5, 'x'}
+			for _, fl := range flagSets {
+				if strings.Contains(fl, "0") && strings.Contains(fl, "-") {
+					continue
+				}
+				for _, w := range []string{"", "70", "100", "*"} {
+					for _, p := range []string{"", ".3", ".*"} {
+						for _, vb := range verbs {
+							for _, op := range operands {
+								ws := []int{0}
+								if w == "*" {
+									ws = stars
+								}
+								ps := []int{0}
+								if p == ".*" {
+									ps = stars
+								}
+								for _, wv := range ws {
+									for _, pv := range ps {
+										if w == "*" && wv < 0 && strings.Contains(fl, "0") {
+											continue // negative * width sets '-': the excluded 0/- combination
+										}
+										var args []interface{}
+										if w == "*" {
+											args = append(args, wv)
+										}
+										if p == ".*" {
+											args = append(args, pv)
+										}
+										args = append(args, op)
+										f := "[%" + fl + w + p + vb + "]"
+										ro, rp := rSprintf(f, args)
+										fo, fp := fSprintf(f, args)
+										var orc []string
+										if (rp != "") != (fp != "") {
+											orc = append(orc, fmt.Sprintf("C04:panic behaviour differs from fmt for Sprintf(%q, %v): redact=%q fmt=%q", f, args, rp, fp))
+											if rp != "" {
+												orc = append(orc, fmt.Sprintf("C11:Sprintf(%q, %v) panicked: %s", f, args, rp))
+											}
+										} else if rp == "" {
+											if got, want := realStrip(ro), escQ(fo); !bytes.Equal(got, want) {
+												orc = append(orc, fmt.Sprintf("C04:Sprintf(%q, %v): StripMarkers(redact)=%q but fmt prints %q", f, args, got, want))
+											}
+										}
+										emit(Case{Real: fmt.Sprintf("Sprintf(%q, %v) => %s", f, args, ro), Oracle: orc, Nontriv: true, Kind: "star"})
+									}
+								}
+							}
+						}
+					}
+				}
+			}
+		})
+}
+
 func fidelityCase(c pcase, emit func(Case)) {
 	args := buildArgs(c.vals, 0)
 	var ro, fo []byte
@@ -362,7 +427,7 @@ func fidelityCase(c pcase, emit func(Case)) {
 			orc = append(orc, fmt.Sprintf("C04:StripMarkers(redact)=%q but fmt prints %q", got, want))
 		}
 		if e := wflErr(ro); e != "" {
-			orc = append(orc, "C01:printer output not well-formed/line-safe: "+e)
+			orc = append(orc, wfTag(e)+"printer output not well-formed/line-safe: "+e)
 		}
 	}
 	emit(Case{Real: c.desc() + " => " + string(ro), Oracle: orc, Nontriv: hasMarker(ro), Kind: kindOf(c)})
@@ -410,7 +475,7 @@ func streamEnvelopes(rep *Report, tier string, seed uint64) {
 					// Go-syntax rendering puts the type name (safe text by design) around the address
 					valid = false
 				}
-				if v.hasKind(KMapIfaceKey, KMapStructKey, KPtrStruct, KStrSlice, KIntArr, KMapKeyed, KRegStruct, KByteArr, KBytes, KComplex, KNilStringer, KGoStringer) && !declaredSafe {
+				if v.hasKind(KNilMapStringer, KNilSliceError, KNilFuncStringer, KMapIfaceKey, KMapStructKey, KPtrStruct, KStrSlice, KIntArr, KMapKeyed, KRegStruct, KByteArr, KBytes, KComplex, KNilStringer, KGoStringer) && !declaredSafe {
 					// composite renderings: structural punctuation is written as safe text by design
 					valid = false
 				}
@@ -503,7 +568,7 @@ func envelopeTreeCase(r *Rng, emit func(Case)) {
 	if pm != "" {
 		orc = append(orc, "C11:print call panicked: "+pm)
 	} else if e := wflErr(out); e != "" {
-		orc = append(orc, "C01:"+e)
+		orc = append(orc, wfTag(e)+e)
 	} else {
 		var safe, unsafe [][]byte
 		for _, v := range vs {
@@ -579,7 +644,7 @@ func streamWrappers(rep *Report, tier string, seed uint64) {
 						if pm != "" {
 							orc = append(orc, "C11:print call panicked: "+pm)
 						} else if e := wflErr(out); e != "" {
-							orc = append(orc, "C01:"+e)
+							orc = append(orc, wfTag(e)+e)
 						} else if len(bytes.Trim(dropEnvs(out), "\n")) != 0 {
 							orc = append(orc, fmt.Sprintf("C06:Unsafe(formatter calling back through SafePrinter) not entirely inside envelopes: %q", out))
 						}
@@ -610,7 +675,7 @@ func streamWrappers(rep *Report, tier string, seed uint64) {
 				} else {
 					mid := out[3 : len(out)-3]
 					if e := wflErr(out); e != "" {
-						orc = append(orc, "C01:"+e)
+						orc = append(orc, wfTag(e)+e)
 					} else if len(bytes.Trim(dropEnvs(mid), "\n")) != 0 {
 						orc = append(orc, fmt.Sprintf("C06:rendering of %s not entirely inside envelopes: %q", lbl, mid))
 					}
@@ -790,6 +855,18 @@ func streamCompose(rep *Report, tier string, seed uint64) {
 				if string(sb.RedactableString()) != string(rs)+string(delim)+string(r2) {
 					orc = append(orc, fmt.Sprintf("C08:JoinTo is not concatenation: %q", sb.RedactableString()))
 				}
+				// JoinTo over element types that are not of string kind, and with an empty delimiter
+				for _, dl := range []redact.RedactableString{delim, ""} {
+					var sb2, sb3 redact.StringBuilder
+					redact.JoinTo(&sb2, dl, []redact.RedactableBytes{rs.ToBytes(), r2.ToBytes(), rs.ToBytes()})
+					if want := string(rs) + string(dl) + string(r2) + string(dl) + string(rs); string(sb2.RedactableString()) != want {
+						orc = append(orc, fmt.Sprintf("C08:JoinTo over []RedactableBytes is not concatenation: %q want %q", sb2.RedactableString(), want))
+					}
+					redact.JoinTo(&sb3, dl, []interface{}{rs, r2.ToBytes(), redact.Safe("s"), 7})
+					if want := string(rs) + string(dl) + string(r2) + string(dl) + "s" + string(dl) + "‹7›"; string(sb3.RedactableString()) != want {
+						orc = append(orc, fmt.Sprintf("C08:JoinTo over []interface{} is not the concatenation of the elements' renderings: %q want %q", sb3.RedactableString(), want))
+					}
+				}
 				// distribution of Redact / StripMarkers
 				if string(cat.Redact()) != "lit "+string(rs.Redact())+"|"+string(r2.Redact())+"?" {
 					orc = append(orc, "C08:Redact does not distribute over Sprintf composition")
@@ -857,7 +934,7 @@ func streamTotality(rep *Report, tier string, seed uint64) {
 							dispatched := bytes.Contains(out, []byte("PANIC="))
 							if dispatched {
 								if e := wflErr(out); e != "" {
-									orc = append(orc, "C01:"+e)
+									orc = append(orc, wfTag(e)+e)
 								}
 								// payload treated as unsafe unless itself declared safe
 								if s, ok := pl.(string); ok && bytes.Contains(dropEnvs(out), []byte(s)) {
@@ -938,7 +1015,7 @@ func runeCase(pi int, ops []bop, emit func(Case)) {
 		if pm != "" {
 			orc = append(orc, "C11:rune/byte write panicked: "+pm)
 		} else if e := wflErr(fin); e != "" {
-			orc = append(orc, "C01:"+e)
+			orc = append(orc, wfTag(e)+e)
 		}
 		emit(Case{Real: opsLine(impl, ops) + " => " + string(fin), Oracle: orc, Nontriv: true, Kind: "rune:" + impl})
 	}
@@ -1187,7 +1264,7 @@ func streamHook(rep *Report, tier string, seed uint64) {
 								orc = append(orc, "C17:print panicked: "+pm)
 							} else {
 								if e := wflErr(out); e != "" {
-									orc = append(orc, "C01:"+e)
+									orc = append(orc, wfTag(e)+e)
 								}
 								hookExpected := hk == 1 && !isSF && pos != "unsafe" && pos != "ufield"
 								if pos == "ufield" {
